@@ -179,6 +179,38 @@ def _block_of(stmt, loop):
     return []
 
 
+def single_exit(prog, rep, fi):
+    """the obligations above speak about the sweep: every way out of the function must go through it"""
+    from ..cfg import cfg_of, truth
+
+    rep.rule("RESULT", "union_no_overlap returns only the list built by the sweep (after both tails were appended); any other return is taken only when one of the two lists is empty")
+    rets = [n for n in walk_own(fi.node) if isinstance(n, ast.Return)]
+    last = fi.node.body[-1]
+    g = cfg_of(fi)
+    a, b = fi.params[0], fi.params[1]
+
+    def says_empty(lab):
+        if not lab or lab[0] != "cond":
+            return False
+        t = norm(lab[1])
+        for nm in (a, b):
+            if truth(lab, nm) is False:
+                return True
+            if t in (f"len({nm}) == 0", f"{nm} == []") and lab[2] is True:
+                return True
+            if t in (f"len({nm}) > 0", f"len({nm}) != 0", f"len({nm}) >= 1") and lab[2] is False:
+                return True
+        return False
+
+    reach = g.reach_filtered(g.entry, lambda u, v, lab: not says_empty(lab))
+    for r in rets:
+        if r is last:
+            continue
+        ok = g.node_of(r) not in reach or (isinstance(r.value, ast.List) and not r.value.elts)
+        rep.check(ok, "RESULT", fi.short, f"early return at line {r.lineno}", "only when one list is empty", f"`{norm(r)[:70]}` returns without sweeping although both lists may hold events: on that path nothing trims list two against list one, so overlapping (or merely unsorted) inputs come back overlapping", fi.loc(r))
+    rep.check(isinstance(last, ast.Return), "RESULT", fi.short, "final return", "the function ends by returning the swept list", "the function does not end in a return of the swept list", fi.loc(last))
+
+
 def check(prog, rep):
     rep.level = "other"
     rep.explanation = (
@@ -193,6 +225,7 @@ def check(prog, rep):
     rep.rule("PURE", "no write at or below the input parameters, at any depth (E2)")
     fi, an = purity_rule(prog, rep, "union_no_overlap", ["events1", "events2"])
     ctx = list_one_intact(prog, rep, an)
+    single_exit(prog, rep, fi)
     split_rule(prog, rep)
     if ctx:
         cut_points(prog, rep, ctx)
@@ -211,6 +244,8 @@ VARIANTS = [
     ("B piece after not re-queued", F, "                if e2_next2:\n                    events2.insert(e2_i, e2_next2)\n", "", "CUT"),
     ("B tail of list one forgotten", F, "    events_union += events1[e1_i:]\n", "", "L1-INTACT"),
     ("B touching counts as overlap", F, "        if e1_p.intersects(e2_p):", "        if e1_p.gap(e2_p) is None:", "CUT"),
+    ("B fast path when list one seems to end before list two starts", F, "    # I looked a lot at aw_transform.union when I wrote this\n", "    if events1 and events2:\n        if events1[-1].timestamp + events2[0].duration <= events2[0].timestamp:\n            return events1 + events2\n", "RESULT"),
+    ("OK fast path for an empty second list", F, "    # I looked a lot at aw_transform.union when I wrote this\n", "    if not events2:\n        return events1\n", "ok"),
     ("OK guard reordered", F, "    if e.timestamp < dt < e.timestamp + e.duration:", "    if dt > e.timestamp and dt < e.timestamp + e.duration:", "ok"),
     ("OK tail via extend", F, "    events_union += events1[e1_i:]\n", "    events_union.extend(events1[e1_i:])\n", "ok"),
 ]
